@@ -78,6 +78,9 @@ def run_impl(op, inp):
             if op == 1:
                 local.ud = apdu[3:]
                 return ("d", bytes([0x80, 0x60, 1]))
+            if op == 2 and who is not None and who == inp.get("poison"):
+                # this client's heartbeat signature is not DER: its handler ends in the unknown-exception path
+                return ("d", bytes([0x80, 0x60, 2]) + b"\x00\x01\x02")
             data = {2: der(b"\x01" * 8, b"\x02" * 8), 3: getattr(local, "ud", b"") + b"msg", 4: b"\x09" * 32,
                     5: b"\x04" + b"\x05" * 64}[op]
             return ("d", bytes([0x80, 0x60, op]) + data)
@@ -131,19 +134,29 @@ def run_impl(op, inp):
     def go(i, req):
         barrier.wait()
         client(i, req)
-    for i, req in enumerate(inp["requests"]):
-        th = threading.Thread(target=go, args=(i, dict(req, client=i)))
-        threads.append(th)
-        th.start()
-    for th in threads:
-        th.join(30 + patience)
+    if inp.get("sequential"):
+        # one client after the other (the order of the requests is the order of service)
+        for i, req in enumerate(inp["requests"]):
+            th = threading.Thread(target=client, args=(i, dict(req, client=i)))
+            th.start()
+            th.join(30 + patience)
+    else:
+        for i, req in enumerate(inp["requests"]):
+            th = threading.Thread(target=go, args=(i, dict(req, client=i)))
+            threads.append(th)
+            th.start()
+        for th in threads:
+            th.join(30 + patience)
     srv.server.shutdown()
     t.join(10)
     # replies: each client must have got the answer to its own request
     ok = True
     for i, req in enumerate(inp["requests"]):
         r = replies.get(i, {})
-        if req["command"] == "getPubKey":
+        if i == inp.get("poison"):
+            # the handler of this request died: the client gets the empty object — never another client's reply
+            ok &= r == {}
+        elif req["command"] == "getPubKey":
             from ..powdev import path_bytes
             ok &= r.get("pubKey") == key_for(path_bytes(req["keyId"])).hex()
         elif req["command"] == "sign":
@@ -183,6 +196,22 @@ def gen(tier, rng):
                 r["udValue"] = bytes(rng.getrandbits(8) for _ in range(16)).hex()
             reqs.append(r)
         out.append(Case(OP, {"requests": reqs, "seed": rng.getrandbits(32)}, stream="sockets", clients=k))
+    out += poison_cases(rng, 2 if tier == "quick" else 20)
+    return out
+
+
+def poison_cases(rng, n):
+    """clients served one after the other; the LAST one's handler dies (its heartbeat signature is not DER): it must get
+    the empty object, not what an earlier client got"""
+    out = []
+    for _ in range(n):
+        reqs = [{"command": "sign", "version": 5, "keyId": "m/44'/137'/0'/0/0",
+                 "message": {"hash": bytes(rng.getrandbits(8) for _ in range(32)).hex()}},
+                {"command": "getPubKey", "version": 5, "keyId": "m/44'/0'/0'/0/0"}][:rng.choice([1, 2])]
+        reqs.append({"command": "signerHeartbeat", "version": 5,
+                     "udValue": bytes(rng.getrandbits(8) for _ in range(16)).hex()})
+        out.append(Case(OP, {"requests": reqs, "seed": rng.getrandbits(32), "sequential": True,
+                             "poison": len(reqs) - 1}, stream="poison", clients=len(reqs)))
     return out
 
 
@@ -201,7 +230,7 @@ def search(bad_cases, rng):
                 consts.append(float(n.value))
     except Exception:
         pass
-    out = list(gen("quick", rng))
+    out = poison_cases(rng, 3) + list(gen("quick", rng))
     for total in sorted(set(consts)):
         reqs = [{"command": "blockchainState", "version": 5},
                 {"command": "blockchainParameters", "version": 5},
